@@ -229,9 +229,13 @@ def run_impl(case):
         return " ; ".join(outs), [], ["pl"]
     v = S.Validator(vspec)
     events = []
+    held = []      # (raw removed, raw added, their copies at notification time, op kind): a faithful delta stays faithful
+
+    def _rec(t, i, r, a):
+        events.append((i, list(r), list(a)))
+        held.append((r, a, list(r), list(a), None))
     try:
-        tl = TraitList(init, item_validator=v,
-                       notifiers=[lambda t, i, r, a: events.append((i, list(r), list(a)))])
+        tl = TraitList(init, item_validator=v, notifiers=[_rec])
     except Exception as e:
         return "err " + S.exc_name(e), [], ["init-err"]
     shadow = list(tl)  # builtin list run on validated items
@@ -240,6 +244,7 @@ def run_impl(case):
         tags.add(k)
         snap = list(tl)
         del events[:]
+        nheld = len(held)
         v.reset()
         exc = None
         ret = None
@@ -248,6 +253,16 @@ def run_impl(case):
         except Exception as e:
             exc = e
         after = list(tl)
+        # events delivered by EARLIER operations must not have changed under this one (an event whose
+        # `added`/`removed` aliases the live list stops being a faithful delta as soon as the list changes)
+        for j, (r, a, rc, ac, kk) in enumerate(held[:nheld]):
+            if r is tl or a is tl or list(r) != rc or list(a) != ac:
+                hits.append(_hit("event-aliases-live-list:" + str(kk), "the removed/added of an earlier %s event changed when the list "
+                                 "was mutated later (it aliases the list)" % kk, at_notification=[rc, ac], now=[list(r), list(a)]))
+                held[j] = (list(r), list(a), list(r), list(a), kk)
+        for j in range(nheld, len(held)):
+            r, a, rc, ac, _ = held[j]
+            held[j] = (r, a, rc, ac, k)
         # ---------------- oracle: the property statement on the real code
         # (1) what a builtin list does on the validated items
         vexc = None
